@@ -326,7 +326,13 @@ class datetime(_dt, FieldType):
         return self
 
     def __str__(self):
-        return self.astimezone(DISPLAY_TZINFO).isoformat(" ") if DISPLAY_TZINFO else self.isoformat(" ")
+        if DISPLAY_TZINFO:
+            try:
+                return self.astimezone(DISPLAY_TZINFO).isoformat(" ")
+            except OverflowError:
+                # next to year 1 / 9999 the instant has no representation in the display timezone: show it in its own
+                pass
+        return self.isoformat(" ")
 
     def __repr__(self):
         return str(self)
